@@ -356,9 +356,23 @@ def build_harness(ctx, name, libdir, flavour="O1", extra=()):
              "tsan": ["-O1", "-g", "-fsanitize=thread"]}[flavour]
     cmd = ["g++", "-std=c++17", "-DNDEBUG", "-DDRACO_VERIF"] + flags + ["-I" + os.path.join(REPO, "src"), "-I" + libdir,
            "-I" + os.path.join(ROOT, "harness"), src, os.path.join(libdir, "libdraco.a"), "-lpthread", "-o", exe] + list(extra)
+    # rebuilt whenever the harness sources, the library or ANY header of /repo's current tree changed (content hash), reused otherwise
+    import hashlib
+    h = hashlib.sha1(" ".join(cmd).encode())
+    for f in sorted(glob.glob(os.path.join(ROOT, "harness", "*.h"))) + [src]:
+        h.update(open(f, "rb").read())
+    st = os.stat(os.path.join(libdir, "libdraco.a")); h.update(("%d:%d" % (st.st_size, st.st_mtime_ns)).encode())
+    for dp, dn, fn in sorted(os.walk(os.path.join(REPO, "src", "draco"))):
+        for f in sorted(fn):
+            if f.endswith(".h") or (f.endswith(".cc") and "_test" not in f):   # some harnesses include .cc files of the library (templates)
+                fp = os.path.join(dp, f); s2 = os.stat(fp); h.update(("%s:%d:%d" % (fp, s2.st_size, s2.st_mtime_ns)).encode())
+    stamp = exe + ".stamp"
+    if os.path.exists(exe) and os.path.exists(stamp) and open(stamp).read() == h.hexdigest():
+        return exe
     rc, out = sh(cmd, timeout=900)
     if rc != 0:
         raise BuildFailure("harness %s does not compile against /repo" % name, out)
+    open(stamp, "w").write(h.hexdigest())
     return exe
 
 
